@@ -64,6 +64,9 @@ SCHEDS = {
     "linear": {"object": {"type": "linear", "start_factor": 0.2, "total_iters": 3}},
     "plateau": {"object": {"type": "plateau", "patience": 0, "cooldown": 0, "factor": 0.5, "threshold": 0.5}},
     "cyclic": {"object": {"type": "cyclic", "step_size_up": 2}},
+    # edge values: a learning rate that is EXACTLY zero at some split points (ramp down to 0, cycle starting at 0)
+    "linear_to_zero": {"object": {"type": "linear", "start_factor": 1.0, "end_factor": 0.0, "total_iters": 2}, "probe": {"type": "linear", "start_factor": 1.0, "end_factor": 0.0, "total_iters": 3}},
+    "cyclic_from_zero": {"object": {"type": "cyclic", "base_lr": 0.0, "max_lr": 0.4, "step_size_up": 1, "step_size_down": 1, "mode": "triangular"}},
 }
 PATHS = [("raw", "zip"), ("raw", "dir"), ("noraw_dset", "zip"), ("noraw_dset", "dir"), ("clone", "-")]
 
@@ -291,7 +294,7 @@ def lattice(quick):
     if quick:
         objs = [("complex", 1), ("potential", 2)]
         opts = ["sgd", "adam", "adamw", "adam_eps"]
-        scheds = ["none", "exp", "linear"]  # linear/cyclic schedulers depend on the scheduler's epoch counter, exp does not
+        scheds = ["none", "exp", "linear", "linear_to_zero"]  # linear/cyclic schedulers depend on the scheduler's epoch counter, exp does not
     else:
         objs = [("complex", 1), ("complex", 2), ("pure_phase", 1), ("pure_phase", 2), ("potential", 1), ("potential", 2)]
         opts = list(OPTS)
